@@ -288,9 +288,12 @@ fn session(c: &Corpus, which: Impl, compressed: bool, style: u64, total_bytes: u
     let _ = min_spare;
     // ---- writes: one datagram per packet, holding exactly its frame -----------------------------------
     pr.peer.set_read_timeout(Some(Duration::from_secs(5))).map_err(|e| e.to_string())?;
-    for _ in 0..40 {
-        let lay = r.pick(c.kinds());
-        let o = GenOpts { text: TextMode::Ascii, max_list: Some(20), boundary: 4, hostile: false };
+    for wi in 0..40 {
+        // every third packet is a list-bearing kind filled to its protocol maximum (frames up to 1020 / 252 bytes)
+        let big = wi % 3 == 0;
+        const BIG: [&str; 7] = ["MAL", "MCI", "AXM", "NLP", "IPB", "PLH", "HOS"];
+        let lay = if big { c.spec.packet(BIG[r.usize_below(BIG.len())]) } else { r.pick(c.kinds()) };
+        let o = GenOpts { text: TextMode::Ascii, max_list: if big { None } else { Some(20) }, boundary: 4, hostile: false };
         let Ok((_, pk)) = c.packet(r, lay, &o) else { continue };
         let Enc::Ok(enc) = real_encode(&pk, compressed) else { continue };
         p.evaluations += 1;
@@ -525,7 +528,7 @@ pub fn run(ctx: &mut Ctx) -> (&'static str, String, bool) {
     ctx.assume("loss is decided by observing an empty kernel queue (three consecutive observations) while packets are owed, never by a timeout alone");
     (
         "exploration",
-        "real loopback UDP socket pairs; per {blocking,tokio} x {compressed,uncompressed} x 4 datagram-size styles (small, maximal incl. a single 1020-byte frame, uniform, bimodal): bursts of 1-4 datagrams of 1..n frames until several times the 6120-byte buffer has passed through, every delivered packet compared with the isolated decoding of the sent frames; then 40 writes observed as exactly one datagram each; the same traffic (maximal and bimodal sizes) through connections made by Builder::udp(..).connect_blocking()/connect_async(), one datagram at a time with an in-order sentinel deciding loss; distinct = distinct (mode, datagram) sent by the peer".into(),
+        "real loopback UDP socket pairs; per {blocking,tokio} x {compressed,uncompressed} x 4 datagram-size styles (small, maximal incl. a single 1020-byte frame, uniform, bimodal): bursts of 1-4 datagrams of 1..n frames until several times the 6120-byte buffer has passed through, every delivered packet compared with the isolated decoding of the sent frames; then 40 writes (a third of them maximum-size list packets) observed as exactly one datagram each; the same traffic (maximal and bimodal sizes) through connections made by Builder::udp(..).connect_blocking()/connect_async(), one datagram at a time with an in-order sentinel deciding loss; distinct = distinct (mode, datagram) sent by the peer".into(),
         false,
     )
 }
